@@ -27,3 +27,24 @@ Example C13_runs :
   let s := run ZS 3 (fun _ => 1%Z) A 3 in
   map (fun k => map (fun j => sum_n (S:=ZS) (fun p => smul ZS (Qm ZS s k p) (Rm ZS s p j)) 3) [0; 1; 2]) [0; 1; 2] = [[2; 1; 0]; [1; 3; 1]; [0; 1; 4]]%Z.
 Proof. vm_compute. reflexivity. Qed.
+
+(** * Orthonormality of Q in exact arithmetic (Proofs/QROrtho.v): if the normalisation value is a square
+    root of the squared norm of the working column and never vanishes, the first n columns of Q satisfy
+    Q^T Q = I - every number of rows M and columns n, any field.  (Over floating point the deviation
+    grows with cond(A), inherent to Gram-Schmidt: that bound is measured by the correspondence.) *)
+From Coq Require Import Reals.
+From FastorV Require Import Proofs.QROrtho.
+Theorem C13_Q_is_orthonormal :
+  forall (S : Scalar), FieldLaws S ->
+  forall (M : nat) (nrm : (nat -> S) -> S),
+    (forall v, smul S (nrm v) (nrm v) = dotc S M v v) ->
+  forall (A0 : mat S) (n : nat), pivots_ok S M nrm A0 n ->
+  forall p q, p < n -> q < n ->
+    sum_n (fun k => smul S (Qm S (run S M nrm A0 n) k p) (Qm S (run S M nrm A0 n) k q)) M = if p =? q then s1 S else s0 S.
+Proof. exact mgs_orthonormal. Qed.
+Print Assumptions C13_Q_is_orthonormal.
+
+(** the hypotheses are satisfiable: exact reals with the Euclidean norm *)
+Example C13_orthonormal_instance :
+  FieldLaws SumRounding.RS /\ forall M v, smul SumRounding.RS (sqrt (dotc SumRounding.RS M v v)) (sqrt (dotc SumRounding.RS M v v)) = dotc SumRounding.RS M v v.
+Proof. exact (conj RS_field sqrt_norm_sq). Qed.
